@@ -96,7 +96,8 @@ PROPS = {
                 # what-if configurations that MUST fail (guards against a vacuous model): the short-read defect of the
                 # pinned tree on the request side, a right-aligned envelope prefix on the response side
                 whatif=[("MCFraming.tla", "framing_R2_asbuilt.cfg"), ("MCFramingW.tla", "framingw_W1_reframe_rightcopy.cfg"),
-                        ("MCFramingTR.tla", "framingtr_R1_env_restart.cfg"), ("MCFramingTR.tla", "framingtr_R1_empty_is_eof.cfg")]),
+                        ("MCFramingTR.tla", "framingtr_R1_env_restart.cfg"), ("MCFramingTR.tla", "framingtr_R1_empty_is_eof.cfg"),
+                        ("MCFramingTR.tla", "framingtr_R1_zero_read_unguarded.cfg")]),
     "C09": dict(corpora=["stream_faults", "stream_zzfaults", "httpbody", "framingt"], prefix="C09.",
                 # the converting writer: a handler that stops inside an envelope or a message is reported (CutIsReported);
                 # the what-if whose Close looks at a partial envelope only must be rejected
